@@ -441,9 +441,32 @@ def rand_fover_case(rng):
     for rl, cl in zip(rls, cls):
         n = len(rl)
         dts = [rng.choice(['float64', 'float64', 'object', 'int64', 'datetime64[D]']) for _ in cl]
-        cols = [{'dt': dt, 'v': [rand_cell(rng, dt, na=0.5) for _ in range(n)]} for dt in dts]
+        # per column: no missing cell at all (a clean block next to one with holes) or many
+        nas = [rng.choice([0.0, 0.0, 0.5, 0.8]) for _ in dts]
+        if rng.random() < 0.4 and len(dts) >= 2:
+            dts = [dts[0]] * len(dts)       # one dtype: the columns can share 2-D blocks
+        cols = [{'dt': dt, 'v': [rand_cell(rng, dt, na=na) for _ in range(n)]} for dt, na in zip(dts, nas)]
         members.append({'t': 'frame', 'spec': {'index': index_spec(rpool, rl), 'columns': index_spec(cpool, cl), 'cols': cols,
                                                'layout': gen.rand_layout(rng, dts), 'rows': n}})
+    if k >= 2 and rng.random() < 0.3:
+        # block-structured members over the same labels: a clean block of several columns placed before (or after) blocks
+        # that hold missing cells - the fill of a later block must come from the same labels of the later members
+        rl = rng.sample(POOLS[rpool], rng.randint(2, 4))
+        cl = rng.sample(POOLS[cpool], min(len(POOLS[cpool]), rng.randint(3, 5)))
+        members = []
+        for i in range(k):
+            w = rng.randint(2, len(cl) - 1)
+            clean_dt = rng.choice(['int64', 'float64', 'object'])
+            holes_dt = [rng.choice(['float64', 'object', 'datetime64[D]']) for _ in range(len(cl) - w)]
+            dts = [clean_dt] * w + holes_dt
+            nas = [0.0] * w + [0.6] * (len(cl) - w)
+            layout = [[w, True]] + [[1, rng.random() < 0.3] for _ in holes_dt]
+            if rng.random() < 0.3:
+                dts, nas, layout = dts[::-1], nas[::-1], layout[::-1]
+            cols = [{'dt': dt, 'v': [rand_cell(rng, dt, na=na) for _ in rl]} for dt, na in zip(dts, nas)]
+            members.append({'t': 'frame', 'spec': {'index': index_spec(rpool, rl), 'columns': index_spec(cpool, cl), 'cols': cols,
+                                                   'layout': layout, 'rows': len(rl)}})
+        rrel = crel = 'same-structured'
     c = {'k': 'fover', 'members': members, 'union': rng.random() < 0.7, 'n': k, 'gen': rng.random() < 0.3, 'rel': rrel + '/' + crel}
     c['index'] = rng.sample(POOLS[rpool], rng.randint(1, 4)) if rng.random() < 0.2 else None
     c['columns'] = rng.sample(POOLS[cpool], rng.randint(1, 4)) if rng.random() < 0.2 else None
